@@ -2,6 +2,8 @@
 
 package websvc
 
+//@ import http net/http
+
 // Contracts for govc (see /verif/DESIGN.md).  Comment-only file.
 
 // The four documented shapes of the linked-IP / DDNS API, over the segments
@@ -30,14 +32,37 @@ package websvc
 //@   requires len(parts) >= 3 && len(parts) <= 4
 //@   ensures  ok == postShape(parts[0], len(parts))
 
+// proxyAllowed is the property-level statement about a (method, path) pair:
+// one of the four documented shapes, and the path stays under its prefix.
+//
+//@ pred segs(urlPath string) = trimPrefix(urlPath, "/")
+//@ pred nsegs(urlPath string) = splitLen(segs(urlPath), "/", 5)
+//@ pred seg(urlPath string, i int) = splitPart(segs(urlPath), "/", 5, i)
+//@ pred documentedShape(method string, urlPath string) = (nsegs(urlPath) == 3 || nsegs(urlPath) == 4) &&
+//@             ((method == "GET" && getShape(seg(urlPath, 0), seg(urlPath, 3), nsegs(urlPath))) ||
+//@              (method == "POST" && postShape(seg(urlPath, 0), nsegs(urlPath))))
+//@ pred underPrefix(urlPath string) = (nsegs(urlPath) == 3 ==> staysUnder3(seg(urlPath, 1), seg(urlPath, 2))) &&
+//@             (nsegs(urlPath) == 4 ==> staysUnder4(seg(urlPath, 1), seg(urlPath, 2), seg(urlPath, 3)))
+//@ pred proxyAllowed(method string, urlPath string) = documentedShape(method, urlPath) && underPrefix(urlPath)
+
 //@ func shouldProxy
 //@   property C19
 //@   let t = trimPrefix(urlPath, "/")
 //@   let l = splitLen(t, "/", 5)
-//@   ensures only-documented-shapes: ok ==> (l == 3 || l == 4) &&
-//@             ((method == "GET" && getShape(splitPart(t, "/", 5, 0), splitPart(t, "/", 5, 3), l)) ||
-//@              (method == "POST" && postShape(splitPart(t, "/", 5, 0), l)))
+//@   ensures only-documented-shapes: ok ==> documentedShape(method, urlPath)
+//@   ensures allowed: ok ==> proxyAllowed(method, urlPath)
 //@   loop 1 invariant forall j int :: 0 <= j && j <= #i ==> parts[j] != "." && parts[j] != ".."
 //@   loop 1 invariant -1 <= #i && #i < len(parts)
 //@   ensures stays-under-prefix: ok ==> (l == 3 ==> staysUnder3(splitPart(t, "/", 5, 1), splitPart(t, "/", 5, 2))) &&
 //@             (l == 4 ==> staysUnder4(splitPart(t, "/", 5, 1), splitPart(t, "/", 5, 2), splitPart(t, "/", 5, 3)))
+
+// proxied counts the calls that contact the backend.
+//
+//@ ghost proxied int
+
+//@ func (*linkedIPProxy).ServeHTTP
+//@   property C19
+//@   requires w != nil && r != nil && r.URL != nil && r.Header != nil && prx.httpProxy != nil && prx.errColl != nil
+//@   modifies allmaps(http.Header), proxied
+//@   ensures  local-answer-otherwise: !proxyAllowed(old(r.Method), old(r.URL.Path)) ==> proxied == old(proxied)
+//@   ensures  at-most-once: proxied <= old(proxied) + 1
